@@ -460,12 +460,18 @@ class Interp:
             is_gen = _is_generator(fnode)
             if is_gen:
                 env["__yields__"] = []
+            retval = None
             try:
                 self.block(fnode.body, env)
             except Ret as r:
                 if not is_gen:
                     return r.v
-            return GenList(env["__yields__"]) if is_gen else None
+                retval = r.v
+            if is_gen:
+                g = GenList(env["__yields__"])
+                g.retval = retval                           # the value of `x = yield from <this generator>`
+                return g
+            return None
         finally:
             self.depth -= 1
 
@@ -671,7 +677,13 @@ class Interp:
             if isinstance(cur, list) and isinstance(s.op, ast.Add) and isinstance(s.target, ast.Name):
                 cur.extend(v)                              # list += mutates in place
                 return
-            self.assign(s.target, self.aug(s.op, cur, v), env, aug=True)
+            res = self.aug(s.op, cur, v)
+            if isinstance(s.target, ast.Name) and isinstance(cur, Vec) and isinstance(res, Vec) and len(res.v) == len(cur.v) \
+                    and (getattr(cur, "base", None) is not None or getattr(cur, "views", None)):
+                cur.v = list(res.v)                        # ndarray op= works in place: the array it is a view of (and its views) change with it
+                self.lib.sync_views(cur)
+                return
+            self.assign(s.target, res, env, aug=True)
         elif isinstance(s, ast.For):
             seq = self.iterate(self.ev(s.iter, env))
             broke = False
@@ -963,8 +975,9 @@ class Interp:
             env["__yields__"].append(self.ev(n.value, env) if n.value is not None else None)
             return None
         if isinstance(n, ast.YieldFrom):
-            env["__yields__"].extend(self.iterate(self.ev(n.value, env)))
-            return None
+            sub = self.ev(n.value, env)
+            env["__yields__"].extend(self.iterate(sub))
+            return getattr(sub, "retval", None)
         if isinstance(n, ast.JoinedStr):
             parts = []
             for p in n.values:
